@@ -146,3 +146,29 @@ def produce_files(ck, exe, env, count, maxchunks=3, want_zero_tag_byte=2):
             elif 0 in f[10:10 + HL[c.hm] - 1] and len(extra) < want_zero_tag_byte:
                 extra.append((c, f))
     return res + extra
+
+
+def forged(r, count):
+    """AUTHENTIC files that encryption never produces: header + IV area + arbitrary body with the RFC 2104 tag computed here
+    under a key we choose (python hmac = the standard the tag is proven equal to).  Their last decrypted byte is an
+    arbitrary pad length, the body may be empty, not a multiple of 16, or shorter than the IV area of the thread count
+    used for decryption.  Returns [(T, key, file bytes, class)]."""
+    import hmac as _hmac, hashlib
+    H = [hashlib.sha1, hashlib.md5, hashlib.sha256]
+    MAGIC = bytes.fromhex("c3a5c3a5c3a5c3a5")
+    res = []
+    shapes = [("empty-body", 0), ("one-block", 16), ("one-block", 16), ("two-blocks", 32), ("chunk", CH), ("chunk-plus-block", CH + 16),
+              ("two-chunks", 2 * CH), ("ragged", 17), ("ragged", CH + 5), ("ragged", 7)]
+    for i in range(count):
+        name, nb = shapes[i % len(shapes)]
+        cm, hm = r.randrange(5), r.randrange(3)
+        Tenc = r.choice([1, 1, 2, 3])
+        key = rnd_key(r)
+        rest = rnd_bytes(r, 20 * Tenc) + rnd_bytes(r, nb)
+        tag = _hmac.new(key, rest, H[hm]).digest()
+        f = MAGIC + bytes([cm, hm]) + tag + bytes(38 - len(tag)) + rest
+        Tdec = Tenc if i % 4 else r.choice([1, 2, 4, 16])      # a quarter decrypted with another thread count
+        cls = "forged/" + name + ("" if Tdec == Tenc else "/other-T")
+        if len(f) >= 74:
+            res.append((Tdec, key, f, cls))
+    return res
